@@ -136,7 +136,9 @@ def run(ctx: Ctx) -> None:
             files: List[Tuple[str, str]] = []   # (kind, path)
             if how == "separate":
                 for plugin in ("python", "rust"):
-                    r = gen.run_generator(plugin, os.path.join(d, plugin), hashseed=hs)
+                    # the last of the separate runs happens "elsewhere": other day/user/machine, other directory-entry order
+                    spelling = "elsewhen" if inv_i == len(seeds) - 1 else "default"
+                    r = gen.run_generator(plugin, os.path.join(d, plugin), hashseed=hs, spelling=spelling)
                     if r.returncode != 0:
                         ctx.finding(("plugin-failed", plugin, "committed-model"), (r.stderr or r.stdout)[-400:], {"plugin": plugin, "hashseed": hs})
                 files = [("py", os.path.join(d, "python", "lsprotocol", "types.py")), ("rs", os.path.join(d, "rust", "lsprotocol", "src", "lib.rs"))]
